@@ -437,3 +437,70 @@ CANARIES: Dict[str, Dict[str, Any]] = {
         job="c17:unit_scale", expect=["sequence_backend_apply_order_init"],
     ),
 }
+
+US_FILE = "unit_scaling/transforms/_unit_scale.py"
+US_MOD = "unit_scaling.transforms._unit_scale"
+_BK = "C16:transforms._unit_scale.unit_scaling_backend"
+CANARIES.update({
+    "c16-is_add-accepts-mul": dict(
+        props=["C16"], file=US_FILE, module=US_MOD,
+        old='and n.target.__name__ in ["add", "iadd"]', new='and n.target.__name__ in ["add", "iadd", "mul"]',
+        job="c16:_is_add", expect=["C16:transforms._unit_scale._is_add:iff_call_function_of_a_builtin_named_add_or_iadd"],
+    ),
+    "c16-is_add-any-function-named-add": dict(
+        props=["C16"], file=US_FILE, module=US_MOD,
+        old="        and isinstance(n.target, BuiltinFunctionType)\n        and n.target.__name__ in", new="        and n.target.__name__ in",
+        job="c16:_is_add", expect=["C16:transforms._unit_scale._is_add:iff_call_function_of_a_builtin_named_add_or_iadd[call_function,U.add]"],
+    ),
+    "c16-tau-self-attention": dict(
+        props=["C16"], file=US_FILE, module=US_MOD,
+        old="tau = 0.01 if is_self_attention else 0.5", new="tau = 0.1 if is_self_attention else 0.5",
+        job="c16:node[residual_softmax_branch]", expect=[_BK + ":node_rewritten_as_the_recipe_prescribes"],
+    ),
+    "c16-residual-operands-swapped": dict(
+        props=["C16"], file=US_FILE, module=US_MOD,
+        old='"residual_arg_idx": 1 if l in r_deps else 0', new='"residual_arg_idx": 0 if l in r_deps else 1',
+        job="c16:node[residual_skip_first]", expect=[_BK + ":node_rewritten_as_the_recipe_prescribes"],
+    ),
+    "c16-unconstrain-by-keyword-only": dict(
+        props=["C16"], file=US_FILE, module=US_MOD,
+        old="        if len(node.args) > idx:  # constraint was passed positionally\n            node.args = (*node.args[:idx], None, *node.args[idx + 1 :])\n        else:\n            node.kwargs = dict(node.kwargs, constraint=None)",
+        new="        node.kwargs = dict(node.kwargs, constraint=None)",
+        job="c16:_unconstrain_node", expect=["C16:transforms._unit_scale._unconstrain_node:call_stays_well_formed"],
+    ),
+    "c16-builtin-map-before-user-map": dict(
+        props=["C16"], file=US_FILE, module=US_MOD,
+        old="if node.target in replacement_map:", new="if node.target in replacement_map and node.target not in U.torch_map:",
+        job="c16:node[user_overrides_builtin_map]", expect=[_BK + ":node_rewritten_as_the_recipe_prescribes"],
+    ),
+    "c16-plain-add-left-constrained": dict(
+        props=["C16"], file=US_FILE, module=US_MOD,
+        old="args = (*node.args, None)  # None denotes unconstrained", new="args = (*node.args,)",
+        job="c16:node[plain_add_nodes]", expect=[_BK + ":node_rewritten_as_the_recipe_prescribes"],
+    ),
+    "c16-everything-unconstrained": dict(
+        props=["C16"], file=US_FILE, module=US_MOD,
+        old='if "has_residual_successor" not in node.meta:', new='if "has_residual_successor" not in node.meta or True:',
+        job="c16:node[mapped_with_constraint]", expect=[_BK + ":node_rewritten_as_the_recipe_prescribes"],
+    ),
+    "c16-dependencies-parents-only": dict(
+        props=["C16"], file=US_FILE, module=US_MOD,
+        old="deps.update(recurse(parent))", new="recurse(parent)",
+        job="c16:_add_dependency_meta[<=4]", expect=["C16:transforms._unit_scale._add_dependency_meta:dependencies==ancestors"],
+    ),
+    "c16-self-attention-looks-past-the-skip": dict(
+        props=["C16"], file=US_FILE, module=US_MOD,
+        old="        if p == skip_node:\n            continue", new="        if p is None:\n            continue",
+        job="c16:_is_self_attention", expect=["C16:transforms._unit_scale._is_self_attention:iff_the_residual_branch_contains_softmax_or_attention"],
+    ),
+    "c16-plain-add-replaced-during-the-analysis": dict(
+        props=["C16"], file=US_FILE, module=US_MOD,
+        old="                    regular_adds.append(node)", new="                    replace_node_with_function(graph, node, U.add, args=(*node.args, None))",
+        job="c16:node[residual_skip_first]", expect=[_BK + ":node_rewritten_as_the_recipe_prescribes_everything_else_untouched[node=residual_skip_first,later_residual_add=False,earlier_part_ends_in=plain_sum]"],
+    ),
+    "c16-skip-reads-the-residual-output-of-the-split": dict(
+        props=["C16"], file=US_FILE, module=US_MOD,
+        old="new_skip = graph.call_function(getitem, args=(split, 1))", new="new_skip = graph.call_function(getitem, args=(split, 0))",
+        job="c16:composition[quick,0]", expect=[_BK + ":equals_the_recipe"],
+    ),
+})
